@@ -94,6 +94,24 @@ def c01_unary(a):
 
 
 @check
+def c01_alias_sequence(a):
+    """a vector-valued call followed by an in-place operator on its RESULT: what the OPERAND denotes afterwards must not depend on the
+    system it is stored in (a result may alias its operand - to_Vector4D, like and unary + do, for every storage alike - but not for
+    some storages only)"""
+    fam, mp = ctx()
+    outs = []
+    for sig in (a["sig"], CART[len(a["p"])]):
+        v = vec(sig, a["p"], a.get("fl", "g"))
+        at = getattr(v, a["m"])
+        q = at() if callable(at) else at
+        q *= mp.mpf("2.5")
+        outs.append(C.cart(v))
+    sc = max(abs(x) for x in outs[1]) + 1
+    bad = [(i, str(x)[:20], str(y)[:20]) for i, (x, y) in enumerate(zip(*outs)) if not close(x, y, sc)]
+    assert not bad, f"C01 {a['m']} then `*= 2.5` on the result: the operand stored as {a['sig']} now denotes {[str(x)[:12] for x in outs[0]]}, stored as Cartesian {[str(x)[:12] for x in outs[1]]}"
+
+
+@check
 def c01_binary(a):
     fam, mp = ctx()
     d1, d2 = len(a["p1"]), len(a["p2"])
@@ -206,6 +224,11 @@ def search_c01(seed, tier, only_modules=None, limit=5):
                     for o in (ORDERS if p is pts[0] else ORDERS[:2]):
                         n += 1
                         run(c01_unary, {"m": "rotate_euler", "sig": list(sig), "p": p, "args": ["0.4", "-1.2", "2.1"], "order": o}, out, limit)
+                if p is pts[0]:
+                    convs = ["to_" + "".join(C.signames(s_)) for s_ in C.SIGS[dim]] + [f"to_Vector{dim}D", f"to_{dim}D", "unit", "neg2D"]
+                    for m in convs:
+                        n += 1
+                        run(c01_alias_sequence, {"m": m, "sig": list(sig), "p": p}, out, limit)
                 if dim == 4:
                     for m in MOM4:
                         n += 1
